@@ -152,7 +152,47 @@ def r4_no_reply_before_auth(ctx):
            "the connection is written to in handle_connection (%s): a peer without the password can elicit a protocol reply" % ((bad or [(writes[0], 0)])[0][0].norm))
 
 
+def r5_hash_of_the_configured_password(ctx):
+    n = 0
+    for path in ("server::server::Server::new", "server::server::Server::new_with_reloadable_tls", "client::client::Client::with_pool_config"):
+        body = ctx.body("R06.5", path)
+        if body is None:
+            continue
+        o = ctx.origins(body)
+        hp = calls_norm(body, "auth::hash_password")
+        if not hp:
+            ctx.ob("R06.5", "%s:hashes-the-password" % path.split("::")[-1], False, "", "%s does not call hash_password" % path)
+            continue
+        n += 1
+        a = o.of_operand(hp[0].args[0])
+        ok = var_name(a) == "password"
+        ctx.ob("R06.5", "%s:hashes-the-password-as-given" % path.split("::")[-1], ok, hp[0].site, "hash_password(password) on the configured string itself" if ok else
+               "the expected hash is computed from `%s`, not from the configured password as given: holders of the exact password are refused and a related password (trimmed / transformed) is accepted instead" % fmt(a)[:80])
+        # and that hash is what the struct stores
+        stored = False
+        for bi in body.reachable():
+            for st in body.blocks[bi]["stmts"]:
+                if st["s"] == "assign" and st["rv"]["r"] == "aggregate" and "password_hash" in (st["rv"]["kind"].get("fields") or []):
+                    ops = {f: o.of_operand(op) for f, op in zip(st["rv"]["kind"]["fields"], st["rv"]["ops"])}
+                    stored = is_call_term(ops["password_hash"], "auth::hash_password")
+        ctx.ob("R06.5", "%s:stores-that-hash" % path.split("::")[-1], stored, "", "password_hash field = hash_password(password)" if stored else "the stored hash is not the result of hash_password")
+    hb = ctx.body("R06.5", "util::auth::hash_password")
+    if hb is not None:
+        oh = ctx.origins(hb)
+        up = calls_norm(hb, "Digest>::update")
+        ok = bool(up) and (var_name(oh.of_operand(up[0].args[1])) == "password") and bool(calls_norm(hb, "Digest>::finalize")) and len(up) == 1
+        ctx.ob("R06.5", "hash_password:sha256-of-the-bytes", ok, up[0].site if up else "", "one update(password.as_bytes()) then finalize()" if ok else "hash_password does not hash exactly the password bytes")
+    # the connection handler compares against the server's own field
+    lb = co(ctx, "R06.5", "server::server::Server::listen")
+    if lb is not None:
+        ol = ctx.origins(lb)
+        sp = [c for c in lb.calls() if (c.norm or "") == "tokio::spawn"]
+        ok = bool(sp) and "self.password_hash" in fmt(ol.of_operand(sp[0].args[0]))
+        ctx.ob("R06.5", "listen:hands-the-configured-hash-to-the-connection", ok, sp[0].site if sp else "", "the connection task captures self.password_hash" if ok else "the connection task does not use the server's configured hash")
+
+
 def run(ctx):
+    r5_hash_of_the_configured_password(ctx)
     r1_construct_after_auth(ctx)
     r2_full_width(ctx)
     r3_exact_skip(ctx)
